@@ -518,17 +518,26 @@ def R1c_migration_exception(run):
     run.check("R1c", "fields", ok and ws, "migration handler writes other pool fields: %s" % sorted(fields), loc=h.loc(), detail="writes only reward_infos[i].extension")
     idx_ok = True
     for w in ws:
-        if w["adt"] != W:
-            continue
-        st = h.blocks[w["block"]]["s"][w["stmt"]]
-        idxs = [e for e in st["p"]["p"] if isinstance(e, dict) and ("ci" in e or "ix" in e)]
-        for e in idxs:
-            if "ci" in e:
-                v = e["ci"]
-            else:
-                v = const_val(pv.local(e["ix"], w["block"], w["stmt"]))
-            if v not in (1, 2):
-                idx_ok = False
+        # every store / mutable borrow goes through whirlpool.reward_infos[<literal 1 or 2>]: a slot reached any other way
+        # (an iterator over the array, a computed index, a reference taken earlier) is not known to spare slot 0
+        blk = h.blocks[w["block"]]
+        if w["kind"] == "mutref":
+            rv = w["rv"]
+            place = rv.get("ref") or rv.get("raw")
+        elif w["stmt"] < len(blk["s"]):
+            place = blk["s"][w["stmt"]]["p"]
+        else:
+            place = blk["t"].get("d")
+        proj = (place or {}).get("p") or []
+        at_ = [i for i, e in enumerate(proj) if isinstance(e, dict) and e.get("f") == "reward_infos" and e.get("a") == W]
+        good = False
+        if at_ and at_[0] + 1 < len(proj):
+            e = proj[at_[0] + 1]
+            if isinstance(e, dict) and ("ci" in e or "ix" in e):
+                v = e["ci"] if "ci" in e else const_val(pv.local(e["ix"], w["block"], w["stmt"]))
+                good = v in (1, 2)
+        if not good:
+            idx_ok = False
     run.check("R1c", "indices", idx_ok, "migration writes a reward_infos index other than 1 or 2 (index 0 holds the reward authority)", loc=h.loc(),
               detail="constant indices 1 and 2 only")
     # guarded by an early return / error when already migrated
@@ -537,6 +546,62 @@ def R1c_migration_exception(run):
         if all(A.guarded_by(h, at, w["block"]) for w in ws) or (at.true_fail != at.false_fail):
             guarded = guarded or (at.true_fail != at.false_fail and all(A.guarded_by(h, at, w["block"]) for w in ws))
     run.check("R1c", "one-shot", guarded, "migration stores are not guarded by an already-migrated check", loc=h.loc(), detail="stores dominated by a failing guard")
+
+
+def R1d_delegated_authority_scope(run):
+    run.title("R1d", "the delegated fee authority acts on adaptive-fee pools only: SetFeeRateByDelegatedFeeAuthority requires whirlpool.is_initialized_with_adaptive_fee_tier(), "
+                     "which is fee_tier_index() != tick_spacing, with fee_tier_index() the little-endian reading of the seed that initialize stored with to_le_bytes")
+    facts = run.facts
+    st = ACC.by_name(facts, "SetFeeRateByDelegatedFeeAuthority")
+    ok = False
+    if st is not None:
+        f = [x for x in st.fields if x.name == "whirlpool"]
+        ok = bool(f) and any(ACC.norm_expr(v).replace(" ", "") == "whirlpool.is_initialized_with_adaptive_fee_tier()" for v in f[0].values("constraint"))
+    run.check("R1d", "constraint@SetFeeRateByDelegatedFeeAuthority", ok, "SetFeeRateByDelegatedFeeAuthority.whirlpool lost `constraint = whirlpool.is_initialized_with_adaptive_fee_tier()`: "
+              "a tier's delegate could set the fee rate of a FeeTier pool", detail="constraint = whirlpool.is_initialized_with_adaptive_fee_tier()")
+
+    def ret(fn):
+        pv = prov_of(fn)
+        return [strip(pv.local(0, bi, len(bb["s"]))) for bi, bb in enumerate(fn.blocks) if bb["t"]["k"] == "ret"]
+
+    def seed_le(t):
+        """u16::from_le_bytes(self.fee_tier_index_seed), directly or through fee_tier_index()"""
+        t = strip(t)
+        if t[0] == "call" and t[1].endswith("Whirlpool::fee_tier_index") and len(t[2]) == 1 and is_param(strip(t[2][0]), "self"):
+            return True
+        return t[0] == "call" and t[1].endswith("::from_le_bytes") and len(t[2]) == 1 and is_field(strip(t[2][0]), "fee_tier_index_seed") and is_param(strip(strip(t[2][0])[1]), "self")
+    fn = facts.need_fn(W + "::is_initialized_with_adaptive_fee_tier")
+    run.touch(fn)
+    r = ret(fn)
+    ok = len(r) == 1 and r[0][0] == "bin" and r[0][1] == "Ne"
+    if ok:
+        a, b = strip(r[0][2]), strip(r[0][3])
+        spacing = lambda x: is_field(x, "tick_spacing") and is_param(strip(x[1]), "self")
+        ok = (seed_le(a) and spacing(b)) or (seed_le(b) and spacing(a))
+    if not ok and len(r) == 1 and r[0][0] == "call" and r[0][1].rsplit("::", 1)[-1] == "ne" and len(r[0][2]) == 2:
+        # the same test on the encoded side: seed != tick_spacing.to_le_bytes()
+        for (a, b) in ((strip(r[0][2][0]), strip(r[0][2][1])), (strip(r[0][2][1]), strip(r[0][2][0]))):
+            if is_field(a, "fee_tier_index_seed") and is_param(strip(a[1]), "self") and b[0] == "call" and b[1].endswith("::to_le_bytes") and len(b[2]) == 1 \
+                    and is_field(strip(b[2][0]), "tick_spacing") and is_param(strip(strip(b[2][0])[1]), "self"):
+                ok = True
+    run.check("R1d", "adaptive-test", ok, "is_initialized_with_adaptive_fee_tier is %s; expected fee_tier_index() != tick_spacing (a FeeTier pool's index is its tick spacing)" % [sh(x, 80) for x in r],
+              loc=fn.loc(), detail="u16::from_le_bytes(seed) != tick_spacing")
+    g = facts.need_fn(W + "::fee_tier_index")
+    run.touch(g)
+    r = ret(g)
+    run.check("R1d", "seed-decoding", len(r) == 1 and seed_le(r[0]) and r[0][1].endswith("::from_le_bytes"), "fee_tier_index() is %s; expected u16::from_le_bytes(self.fee_tier_index_seed)" % [sh(x, 80) for x in r],
+              loc=g.loc(), detail="little-endian, as stored")
+    ini = facts.need_fn(W + "::initialize")
+    pv = prov_of(ini)
+    ws = [w for w in writes.writers_of(facts, W, "fee_tier_index_seed") if w["kind"] == "assign"]
+    ok = bool(ws) and all(w["fn"] is ini for w in ws)
+    for w in ws:
+        if w["fn"] is not ini:
+            continue
+        v = strip(pv._rvalue(w["rv"], w["block"], w["stmt"], 0)) if "callres" not in w["rv"] else strip(pv.local(w["rv"]["callres"]["d"]["l"], w["block"], w["stmt"] + 1))
+        ok = ok and v[0] == "call" and v[1].endswith("::to_le_bytes") and len(v[2]) == 1 and is_param(strip(v[2][0]), "fee_tier_index")
+    run.check("R1d", "seed-encoding", ok, "Whirlpool::initialize does not store fee_tier_index_seed = fee_tier_index.to_le_bytes() (or someone else writes the seed)", loc=ini.loc(),
+              detail="to_le_bytes(fee_tier_index), written by initialize only")
 
 
 def R2_authority_helpers(run):
@@ -884,11 +949,13 @@ def R4b_token_account_loader(run):
         if not c:
             continue
         txt = show(at.term)
-        if c[0] == "Eq" and "MULTISIG_ACCOUNT_LEN" in txt and at.true_fail:
+        # the three length / initialised tests apply to both token programs: no successful path gets around them
+        every = not cfg.success_reach(fn, 0, cut_blocks=[at.block])
+        if c[0] == "Eq" and "MULTISIG_ACCOUNT_LEN" in txt and at.true_fail and every:
             want["multisig"] = True
-        if c[0] == "Le" and "IS_INITIALIZED_OFFSET" in txt and "data_len" in txt and at.true_fail:
+        if c[0] == "Le" and "IS_INITIALIZED_OFFSET" in txt and "data_len" in txt and at.true_fail and every:
             want["short"] = True
-        if c[0] == "Eq" and "IS_INITIALIZED_OFFSET" in txt and const_val(c[2]) == 0 and at.true_fail:
+        if c[0] == "Eq" and "IS_INITIALIZED_OFFSET" in txt and const_val(c[2]) == 0 and at.true_fail and every:
             want["uninit"] = True
         if c[0] == "Ne" and "ACCOUNT_TYPE" in txt and at.true_fail:
             want["type"] = True
@@ -896,5 +963,5 @@ def R4b_token_account_loader(run):
               detail="multisig length, length <= init offset, init byte 0, account-type byte")
 
 
-RULES = [R1_effect_requires_authority, R1e_mutated_accounts_are_mut, R1b_no_unlisted_writers, R1c_migration_exception, R2_authority_helpers,
+RULES = [R1_effect_requires_authority, R1e_mutated_accounts_are_mut, R1b_no_unlisted_writers, R1c_migration_exception, R1d_delegated_authority_scope, R2_authority_helpers,
          R3_pinocchio_labelling, R4_token_view_layout, R4b_token_account_loader]
